@@ -21,6 +21,14 @@ OPEN = [
      'deblend_sources on a SegmentationImage of a narrow integer dtype whose labels are near the dtype maximum (uint8 labels '
      '252,255): child labels wrap around / relabel map gets size 0 (IndexError); the repair changes the output dtype policy, '
      'see proposed_fixes/C06-narrow-label-dtype-overflow.*'),
+    ('C17', 'commutes|[12]dg:ladder:*',
+     "centroid_1dg / centroid_2dg do not commute with rescaling of the data by many orders of magnitude (data * 2**-40, data * 2**80, flux units ~1e-17): scipy least_squares stops on an absolute gradient tolerance and on the norm of the whole parameter vector, so the fit returns the moment start values (0.07-0.35 px away), e.g. 9x5 blob: centroid_1dg(data) = (2.3641, 3.8060) but (2.2498, 3.8443) on data * 2**-120; moderate factors (x2, x1e-3) commute and stay checked under the non-ladder keys; the repair (normalise before the fit) changes every Gaussian fit's convergence path and two pinned test outcomes, see proposed_fixes/C17-gaussian-centroids-depend-on-data-units.*"),
+    ('C17', 'sources-commutes|[12]dg:ladder:*',
+     'centroid_sources with centroid_1dg / centroid_2dg on an image rescaled by 2**+-120: same defect as commutes|[12]dg:ladder:* '
+     '(the Gaussian fit stops at its start values)'),
+    ('C17', 'symmetry-centre|[12]dg:ladder:large',
+     'centroid_1dg / centroid_2dg on a point-symmetric source scaled by 2**120 and more (thorough tier): same defect as '
+     'commutes|[12]dg:ladder:* (step tolerance met by any step of the centre)'),
     ('C13', 'prf-sum|GaussianPRF:theta%90!=0',
      'GaussianPRF with theta not a multiple of 90 deg does not sum to its flux on the pixel grid for small widths '
      '(-1.3 % at fwhm 0.3, theta 30 deg; up to -69 % at fwhm 0.2): the erf product integrates over rotated pixels, which do '
